@@ -1434,7 +1434,19 @@ func c13RetryAfterForms(r *Run, fn *ssa.Function) {
 			if n > 1 {
 				r.Fail(key, r.Where(l.at), "undecided: the override is computed from more than one parsed integer")
 			} else {
-				ok, detail := c13SecondsRange(c13SecondsAlts(r, l, root))
+				alts := c13SecondsAlts(r, l, root)
+				onlyDate := len(alts) > 0
+				for _, p := range alts {
+					onlyDate = onlyDate && p.bad == c13DateAlt
+				}
+				if onlyDate {
+					// one local serves both forms and only time.Until(date) reaches this hand-over: nothing of
+					// the seconds form to judge here (the hand-over of the seconds branch is judged on its own;
+					// the floor below counts only hand-overs a value of the seconds form reaches)
+					nSec--
+					continue
+				}
+				ok, detail := c13SecondsRange(alts)
 				if ok {
 					detail = "the override of the seconds form, as a function of the parsed integer x, never wraps and is cut only where x seconds cannot be represented: " + detail
 				}
